@@ -284,7 +284,7 @@ pub fn set_pre(o: SeqObs) {
 
 pub fn pre_txn(w: &mut World, n: usize, _p: &mut Pre) {
     match w.cfg.profile.as_str() {
-        "seq" => {
+        "seq" | "gap" => {
             let o = observe_seq(&w.nodes[n].doc.transact());
             PRE_SEQ.with(|p| *p.borrow_mut() = Some(o));
         }
@@ -439,6 +439,13 @@ fn placement(op: &Op, before: &[Tag], after: &[Tag]) -> Option<String> {
 pub fn post_txn(w: &mut World, n: usize, kind: &TxnKind, uid: Option<usize>, _pre: &Pre, _ops: &[Op]) -> VResult {
     match w.cfg.profile.as_str() {
         "seq" => post_seq(w, n, kind, uid),
+        // C02 "never loses": the element tracker of C04 rides along (an element that the library
+        // drops and then reports as deleted to everybody is invisible to the reference oracle)
+        "gap" => {
+            let obs = observe_seq(&w.nodes[n].doc.transact());
+            attribute_seq(w, n, kind, uid, &obs);
+            check_seq_state(w, n, &obs, "gap")
+        }
         "lww" => post_lww(w, n, kind, uid),
         _ => crate::anchors::post_txn(w, n, kind, uid),
     }
